@@ -411,6 +411,8 @@ def _sum(ex, args, kwargs, node):
   v = args[0]
   if isinstance(v, VOpaque):
     return VReal(uf('sum_' + v.okind, [v], z3.RealSort()), np=True)
+  if v.kind == 'framecol':
+    return v.total()
   ex.unsupported(node, 'sum of %s' % v.kind)
 
 
@@ -744,6 +746,14 @@ def _store_subscript(ex, args, kwargs, node):
     recv.val = z3.Store(recv.val, k, encode(
         v if not isinstance(v, VOpt) else v.val))
     return None
+  if recv.kind == 'constdict' and isinstance(idx, VStr):
+    sh = getattr(recv, 'shapes', None)
+    if sh is not None and idx.s in sh:
+      from mmverif.engine.symexec import conform
+      v = conform(ex.ctx, v, sh[idx.s])
+    new = recv.store(idx.s, v)
+    new.shapes = sh
+    return new
   h = L.get(('store.subscript', recv.kind if not isinstance(recv, VOpaque)
              else recv.okind))
   if h is not None:
